@@ -148,7 +148,7 @@ def _ops():
     op("c_to_dict", "C")(lambda L, a, k, e: L["to_dict"](a[0]))
     op("c_from_dict", "DD")(lambda L, a, k, e: L["circuit_from_dict"](a[0]))
     op("cl_to_dict", "CL")(lambda L, a, k, e: L["to_dict"](a[0]))
-    op("c_to_unitary", "C")(lambda L, a, k, e: a[0].to_unitary())
+    op("c_to_unitary", "C")(lambda L, a, k, e: _sim_ok(a[0]).to_unitary())
     op("c_eq", "C", "C")(lambda L, a, k, e: a[0] == a[1])
     op("c_free_symbols", "C")(lambda L, a, k, e: list(a[0].free_symbols))
     op("c_collect_defs", "C")(lambda L, a, k, e: list(a[0].collect_custom_gate_definitions()))
@@ -170,12 +170,12 @@ def _ops():
     op("g_eq", "G", "G")(lambda L, a, k, e: a[0] == a[1])
     op("g_to_dict", "G")(lambda L, a, k, e: L["to_dict"](a[0]))
     # ---- simulators (RNG seam: same stream for both calls)
-    op("sim_wf", "C")(lambda L, a, k, e: e["sim"]().get_wavefunction(a[0]))
-    op("sim_wf_init", "C", "V")(lambda L, a, k, e: e["sim"]().get_wavefunction(a[0], a[1]))
-    op("sim_run", "C")(lambda L, a, k, e: e["sim"]().run_and_measure(a[0], 1 + k[0] % 40))
-    op("sim_batch", "CL")(lambda L, a, k, e: e["sim"]().run_batch_and_measure(a[0], 1 + k[0] % 20))
-    op("sim_exact", "C", "P")(lambda L, a, k, e: e["sim"]().get_exact_expectation_values(a[0], a[1]))
-    op("sim_dist", "C")(lambda L, a, k, e: e["sim"]().get_measurement_outcome_distribution(a[0], None if k[0] % 2 else 1 + k[1] % 30))
+    op("sim_wf", "C")(lambda L, a, k, e: e["sim"]().get_wavefunction(_sim_ok(a[0])))
+    op("sim_wf_init", "C", "V")(lambda L, a, k, e: e["sim"]().get_wavefunction(_sim_ok(a[0]), a[1]))
+    op("sim_run", "C")(lambda L, a, k, e: e["sim"]().run_and_measure(_sim_ok(a[0]), 1 + k[0] % 40))
+    op("sim_batch", "CL")(lambda L, a, k, e: e["sim"]().run_batch_and_measure([_sim_ok(c) for c in a[0]], 1 + k[0] % 20))
+    op("sim_exact", "C", "P")(lambda L, a, k, e: e["sim"]().get_exact_expectation_values(_sim_ok(a[0]), a[1]))
+    op("sim_dist", "C")(lambda L, a, k, e: e["sim"]().get_measurement_outcome_distribution(_sim_ok(a[0]), None if k[0] % 2 else 1 + k[1] % 30))
     # ---- operators
     op("p_add", "P", "P")(lambda L, a, k, e: a[0] + a[1])
     op("p_sub", "P", "P")(lambda L, a, k, e: a[0] - a[1])
@@ -240,6 +240,16 @@ def _ops():
     op("w_save", "W")(lambda L, a, k, e: L["save_wavefunction"](a[0], e["path"](k)))
     op("w_apply_op", "C", "V")(lambda L, a, k, e: a[0].operations[k[0] % len(a[0].operations)].apply(a[1]))
     return O
+
+
+def _sim_ok(c):
+    """Symbolic state evolution grows into expression trees that sympy needs minutes to evaluate (a 9-gate circuit
+    with two symbols took 20 s per call); pool circuits also double under c + c.  The harness only simulates what
+    stays cheap - anything else is a skipped call, not a judgement."""
+    n_ops = len(c.operations)
+    if n_ops > 40 or (c.free_symbols and n_ops > 3):
+        raise ValueError("harness: circuit too long to evaluate in sympy")
+    return c
 
 
 def _cheap_exp(g):
